@@ -208,6 +208,11 @@ func newMachine(e *Explorer, solver *Solver, prefix []int32) *Machine {
 // inconclusive (they are counted and reported, never turned into a verdict).
 func (e *Explorer) runPath(m *Machine, solver *Solver) (kind, msg string) {
 	defer func() {
+		if len(m.threads) > 0 {
+			m.killThreads()
+		}
+	}()
+	defer func() {
 		if r := recover(); r != nil {
 			switch r := r.(type) {
 			case *pathStop:
